@@ -13,12 +13,12 @@ from bounded.common import Result, guarded  # noqa: E402
 # generator on the current tree (thorough tier, seeds 0 and 1) with a margin large enough that it cannot flip between
 # seeds on an unchanged tree.  MEASURED is documentation (re-measure with --tier thorough and read parts.measured_maxima).
 MEASURED = {
-    "tr-nnls area, RC ladders": 1.7e-2,         # automatic lambda (-1) at 5 points/decade; fixed lambda 3e-3
+    "tr-nnls area, RC ladders": 1.71e-2,         # automatic lambda (-1) at 5 points/decade; fixed lambda 3e-3
     "tr-nnls area, RQ ladders": 1.0e-2,
     "tr-nnls peak distance, RC ladders (grid steps)": 1.07,     # once in ~3800 RC ladders (auto lambda -1, 5 points/decade), else <= 0.87
     "lm pair error, 1-2 elements": 1.9e-8,
-    "lm pair error, 3-4 elements": 3.4e-5,
-    "m(RQ)fit element area": 3.1e-6,
+    "lm pair error, 3-4 elements": 3.4e-5,            # seeds 0/1: 2.5e-5; 3.4e-5 seen with an earlier seed stream
+    "m(RQ)fit element area": 4.0e-5,
     "scaling tr-nnls (fixed lambda)": 2.5e-11,
     "scaling lm": 1.3e-5,
 }
